@@ -46,7 +46,9 @@ def sle_case(draw, method):
     c = {'method': method, 'dims': dims, 'cplx': draw(st.booleans()), 'op': opk, 'kappa': draw(st.sampled_from([2.0, 10.0, 100.0, 100.0, 1e11])),
          'rhs': draw(st.sampled_from(['dense', 'lowrank'])), 'guess': gk, 'repeats': draw(st.integers(1, 4)),
          'solver': draw(st.sampled_from(['solve', 'lu'])), 'seed': draw(gen.SEED),
-         'scale_exp': draw(st.sampled_from([0, 0, 0, -6, -11, 8]))}
+         'scale_exp': draw(st.sampled_from([0, 0, 0, -6, -11, 8])),
+         # the same system in other units: operator AND right-hand side multiplied by 1e-12 / 1e-14 / 1e9 (same solution)
+         'op_scale_exp': draw(st.sampled_from([0, 0, 0, 0, -12, -14, 9]))}
     if gk == 'admissible':
         r = [1] * (d + 1)
         for i in range(d - 1, 0, -1):
@@ -147,6 +149,11 @@ def build_problem(c):
         rhs = TT(bc)
         b = dense.matrix(bc).reshape(-1)
         xs = np.linalg.solve(A, b)
+    osc = 10.0 ** c.get('op_scale_exp', 0)
+    if osc != 1.0:
+        A, b = A * osc, b * osc
+        op = osc * op
+        rhs = osc * rhs
     sc = 10.0 ** c.get('scale_exp', 0)
     if sc != 1.0:
         # the solution is linear in the right-hand side: rescale rhs, exact solution and guess together
@@ -195,6 +202,8 @@ def body(c):
         lab.add('order1')
     if c.get('scale_exp', 0):
         lab.add('rescaled')
+    if c.get('op_scale_exp', 0):
+        lab.add('operator_in_other_units')
     if c['kappa'] > 1e6 and c['op'] == 'dense':
         lab.add('condition_1e11')
     capped = c['method'] == 'mals' and c['max_rank'] is not None
